@@ -81,8 +81,14 @@ def dpll(clauses, nvars=None, assume=()):
                 return r
         return None
 
-    sys.setrecursionlimit(max(sys.getrecursionlimit(), 10000))
-    r = rec(cls, assign)
+    # the search recurses once per decision; the limit is raised for its duration only - the interpreter the
+    # library runs in keeps the default limit
+    old_limit = sys.getrecursionlimit()
+    sys.setrecursionlimit(max(old_limit, 10000))
+    try:
+        r = rec(cls, assign)
+    finally:
+        sys.setrecursionlimit(old_limit)
     if r is None:
         return None
     return [v if r.get(v, False) else -v for v in range(1, nvars + 1)]
